@@ -7,6 +7,7 @@
 pub mod fontcase;
 pub mod glyfgraph;
 pub mod iftdrv;
+pub mod iftf1;
 pub mod klipdrv;
 pub mod skdrv;
 pub mod capfam;
@@ -255,9 +256,12 @@ pub fn viol_identity(v: &Viol) -> String {
 pub fn narrow(case: &Value, sub: u64) -> Value {
     let mut c = case.clone();
     let batch = matches!(c["driver"].as_str(), Some("ttprog") | Some("cffprog") | Some("cff2prog")) && !c["o1"].is_null();
-    let batch = batch || (c["driver"] == "glyfgraph" && !c["s0"].is_null()) || c["driver"] == "capfam" || c["driver"] == "colrgrad" || c["driver"] == "colridx";
+    let batch = batch || (c["driver"] == "glyfgraph" && !c["s0"].is_null()) || c["driver"] == "capfam" || c["driver"] == "colrgrad" || c["driver"] == "colridx" || c["family"] == "format1_width";
     if batch && c["only"].is_null() {
         c["only"] = json!(sub);
+        if c["family"] == "format1_width" {
+            c["described"] = json!(iftf1::describe(&c));
+        }
         if c["driver"] == "colridx" {
             c["described"] = json!(colridx::describe(&c));
         }
@@ -282,7 +286,8 @@ pub fn resume_batch(case_json: &str, f: &Failure) -> Option<String> {
         || (c["driver"] == "glyfgraph" && !c["s0"].is_null())
         || c["driver"] == "capfam"
         || c["driver"] == "colrgrad"
-        || c["driver"] == "colridx";
+        || c["driver"] == "colridx"
+        || c["family"] == "format1_width";
     if !batch || !c["only"].is_null() {
         return None;
     }
@@ -516,7 +521,10 @@ pub fn phases(quick: bool) -> Result<Vec<Phase>, String> {
     ));
     // 4. IFT client tuples
     let ift_bytes = pick(96, 4096);
-    let ift = iftdrv::gen_cases(ift_bytes, !quick);
+    // the format-1 width-boundary family comes first (c20 runs phases in enumeration order under a budget)
+    iftf1::sanity().map_err(|e| format!("ift format 1 family gate: {e}"))?;
+    let mut ift = iftf1::gen_cases();
+    ift.extend(iftdrv::gen_cases(ift_bytes, !quick));
     let lv = iftdrv::levels(!quick);
     let defs = iftdrv::defs();
     let third = ift.len() / 3;
@@ -528,6 +536,7 @@ pub fn phases(quick: bool) -> Result<Vec<Phase>, String> {
         vec![(
             "ift".into(),
             json!({"scenarios": iftdrv::scenarios().iter().map(|s| s.name).collect::<Vec<_>>(),
+                "format1_width_family": iftf1::bounds(),
                 "deviated_bytes_per_blob": ift_bytes,
                 "alphabet": {"byte": fontcase::BYTE_ALPHABET, "u16_be": fontcase::U16_ALPHABET, "u16_be_relative": "len-2,len-1,len,len+1,pos,pos+1,pos+2,orig-1,orig+1"},
                 "definitions": lv.defs.iter().map(|i| defs[*i].0).collect::<Vec<_>>(),
